@@ -53,6 +53,13 @@ Theorem C09_path_value_delivered : forall sp ws vals,
   extract_path sp ws = Ok vals.
 Proof. exact path_value_delivered. Qed.
 
+(* a wildcard variable of type Vec<T> (T: String, unit enum, Uuid, char ..):
+   delivered iff EVERY decoded segment parses as a T, and then the handler's
+   Vec is exactly the list of parsed elements - same order, same count *)
+Theorem C09_typed_sequence_delivered_iff : forall t l xs,
+  from_map_elems t l = Ok xs <-> Forall2 (fun s x => parse_scalar t s = Some x) l xs.
+Proof. exact from_map_elems_ok_iff. Qed.
+
 (* any UTF-8 string other than "", "." and ".." reaches a String variable *)
 Theorem C09_path_string_delivered : forall x s,
   deliverable s ->
@@ -210,6 +217,20 @@ Example C09_ex_path :
   = Ok [FvOne (VStr [97; 32; 98; 43; 195; 169])].
 Proof. vm_compute. reflexivity. Qed.
 
+(* /colors/Red/dark-blue/green for {rest: Vec<Color>}; a uuid in two spellings *)
+Example C09_ex_typed_wildcard :
+  let colors := [[82;101;100]; [103;114;101;101;110]; [100;97;114;107;45;98;108;117;101]] in
+  extract_path [([114], KSeq (TEnum colors))]
+               [([114], WMany [[82;101;100]; [100;97;114;107;37;50;68;98;108;117;101]; [103;114;101;101;110]])]
+  = Ok [FvSeq [VEnum [82;101;100]; VEnum [100;97;114;107;45;98;108;117;101]; VEnum [103;114;101;101;110]]] /\
+  parse_uuid [48;48;49;49;50;50;51;51;45;52;52;53;53;45;54;54;55;55;45;56;56;57;57;45;65;65;66;66;67;67;68;68;69;69;70;70]
+  = Some [0;17;34;51;68;85;102;119;136;153;170;187;204;221;238;255] /\
+  parse_uuid [123;48;48;49;49;50;50;51;51;45;52;52;53;53;45;54;54;55;55;45;56;56;57;57;45;97;97;98;98;99;99;100;100;101;101;102;102;125]
+  = Some [0;17;34;51;68;85;102;119;136;153;170;187;204;221;238;255] /\
+  print_uuid [0;17;34;51;68;85;102;119;136;153;170;187;204;221;238;255]
+  = [48;48;49;49;50;50;51;51;45;52;52;53;53;45;54;54;55;55;45;56;56;57;57;45;97;97;98;98;99;99;100;100;101;101;102;102].
+Proof. vm_compute. repeat split. Qed.
+
 (* u8 extremes and one past; "+255", "0255" accepted; "-0" refused for u8, accepted for i8 *)
 Example C09_ex_ints :
   parse_int false 8 [50; 53; 53] = Some 255%Z /\ parse_int false 8 [50; 53; 54] = None /\
@@ -265,6 +286,7 @@ Print Assumptions C09_bool_accept_set.
 Print Assumptions C09_char_encoding_is_utf8.
 Print Assumptions C09_segment_decoded.
 Print Assumptions C09_path_value_delivered.
+Print Assumptions C09_typed_sequence_delivered_iff.
 Print Assumptions C09_path_string_delivered.
 Print Assumptions C09_path_typed_delivered.
 Print Assumptions C09_print_int_deliverable.
